@@ -51,6 +51,7 @@ def eTooDeep := "too-deep"                      -- didnuts.ErrNestedDocumentsToo
 def eKeyNotFound := "key-not-found"             -- resolver.ErrKeyNotFound
 def eInvalidKid := "invalid-kid"
 def eBadJwk := "bad-jwk"
+def eUnsupportedType := "unsupported-type"      -- go-did `VerificationMethod.PublicKey()` for a type it has no key decoding for
 
 /-! ### the parsed network document -/
 
@@ -62,6 +63,8 @@ structure NVM where
   idEmpty : Bool := false      -- ID.Empty()
   typeBlank : Bool := false    -- strings.TrimSpace(Type) == ""
   ctrlEmpty : Bool := false    -- Controller.Empty()
+  pkUnsupported : Bool := false -- the type is none of those for which go-did's `PublicKey()` reads the publicKeyJwk
+                                -- (JsonWebKey2020, EcdsaSecp256k1VerificationKey2019): `PublicKey()` fails for it
   key : KeyInfo
   deriving DecidableEq, Repr, Inhabited
 
@@ -95,13 +98,18 @@ structure NDoc where
 
 def vmEntry (v : NVM) : Entry := { id := v.id, body := v.key.body }
 
+/-- entries of `verificationMethod` additionally carry (as a leading '?') that `PublicKey()` cannot use the method's
+    type; the validator and `findKeyByThumbprint` read the JWK whatever the type says -/
+def vmEntryPK (v : NVM) : Entry := { id := v.id, body := (if v.pkUnsupported then "?" else "") ++ v.key.body }
+def pkMarked (b : String) : Bool := b.toList.head? == some '?'
+
 /-- the document as the store keeps it (C10 `Doc`) -/
 def NDoc.toDoc (d : NDoc) : Doc :=
   { id := d.id
     f := fun
       | .ctx => d.contexts.map (fun c => { id := c, body := "c" })
       | .controller => d.controllers.map (fun c => { id := c, body := "c" })
-      | .vm => d.vms.map vmEntry
+      | .vm => d.vms.map vmEntryPK
       | .auth => d.auth.map vmEntry
       | .assertion => d.assertion.map vmEntry
       | .capInv => d.capInv.map vmEntry
@@ -295,10 +303,12 @@ def resolvePublicKey1 (res : Option ResolveMeta → String → Res Doc) (kid : K
       match (doc.f .vm).find? (fun e => e.id == kid.id) with
       | none => .err eKeyNotFound
       | some vm =>
-        match KeyInfo.ofBody vm.body with
-        | .key k => .ok k
-        | .bad => .err eBadJwk
-        | .none => .panic "VerificationMethod.PublicKey:nil-jwk"
+        if pkMarked vm.body then .err eUnsupportedType
+        else
+          match KeyInfo.ofBody vm.body with
+          | .key k => .ok k
+          | .bad => .err eBadJwk
+          | .none => .panic "VerificationMethod.PublicKey:nil-jwk"
     | .err e => .err e
     | .panic x => .panic x
 
